@@ -28,6 +28,36 @@ def _canon_outcome(o):
                       sort_keys=True, default=repr)
 
 
+def raised_inside_signac(exc):
+    """'file:function' of the innermost frame if the exception was raised inside signac / synced_collections, else None."""
+    tb = exc.__traceback__
+    last = None
+    while tb is not None:
+        last = tb
+        tb = tb.tb_next
+    if last is None:
+        return None
+    fn = last.tb_frame.f_code.co_filename
+    if "/verif/" in fn:
+        return None
+    if "/signac/" in fn or "synced_collections" in fn:
+        return f"{os.path.basename(fn)}:{last.tb_frame.f_code.co_name}"
+    # exceptions raised by the standard library on behalf of signac (os.replace, json, shutil ...): look for the
+    # innermost signac frame, provided no harness frame is below it
+    tb = exc.__traceback__
+    frames = []
+    while tb is not None:
+        frames.append(tb.tb_frame.f_code)
+        tb = tb.tb_next
+    for i in range(len(frames) - 1, -1, -1):
+        f = frames[i].co_filename
+        if "/verif/" in f:
+            return None
+        if "/signac/" in f or "synced_collections" in f:
+            return f"{os.path.basename(f)}:{frames[i].co_name}"
+    return None
+
+
 def _init_worker():
     signal.signal(signal.SIGINT, signal.SIG_IGN)
 
@@ -39,9 +69,25 @@ def _eval_chunk(args):
     for k, item in enumerate(chunk):
         try:
             o = _EVAL(item)
-        except BaseException as e:  # harness bug: never report as a violation of signac
-            res["herr"].append(f"evaluate() raised {type(e).__name__}: {e} on item {item!r}\n"
-                               + traceback.format_exc()[-1500:])
+        except BaseException as e:  # noqa
+            where = raised_inside_signac(e)
+            if where is None:  # harness bug: never report as a violation of signac
+                res["herr"].append(f"evaluate() raised {type(e).__name__}: {e} on item {item!r}\n"
+                                   + traceback.format_exc()[-1500:])
+                continue
+            # a public API call on an input that is valid on the unchanged tree failed inside signac
+            o = {"cls": "public-call-raises", "n": 1, "viol": [{
+                "sig": {"kind": "public-call-raises", "exc": type(e).__name__, "where": where},
+                "scenario": "setup-or-call", "input": {"item": repr(item)[:2000]}, "expected": "no exception",
+                "observed": f"{type(e).__name__}: {e}"[:500],
+                "msg": f"a signac call made by the check raised {type(e).__name__}: {e} (in {where}) for item {item!r}"[:1200]}]}
+            res["items"] += 1
+            res["n"] += 1
+            res["cls"][o["cls"]] += 1
+            if len(res["viol"]) < 40:
+                v = dict(o["viol"][0])
+                v["reproduced_twice"] = False
+                res["viol"].append(v)
             continue
         res["items"] += 1
         res["n"] += o.get("n", 1)
@@ -122,16 +168,28 @@ def run_items(ctx, items, evaluate, chunk=64, totals=None):
     global _EVAL
     _EVAL = evaluate
     tot = totals or Totals()
-    work = chunks(items, chunk)
+    gen_errors = []
+
+    def guarded(it):
+        # the pool consumes the generator in a helper thread: keep the original exception (and traceback)
+        try:
+            yield from it
+        except BaseException as e:  # noqa
+            gen_errors.append(e)
+    work = chunks(guarded(items), chunk)
     if ctx.nworkers <= 1:
         for w in work:
             tot.merge(_eval_chunk(w))
+        if gen_errors:
+            raise gen_errors[0]
         return tot
     mp = multiprocessing.get_context("fork")
     with mp.Pool(ctx.nworkers, initializer=_init_worker) as pool:
         # the seed rotates which worker sees which chunk only through arrival order
         for r in pool.imap_unordered(_eval_chunk, work):
             tot.merge(r)
+    if gen_errors:
+        raise gen_errors[0]
     return tot
 
 
